@@ -9,7 +9,7 @@
    out/ok = execution of the loaded program, outd/okd = execution without the byte round trip.
    Each record is judged on its own: one VERDICT line per record with the list of failed clauses. *)
 EXTENDS FMLBytecode, TLC, Json, IOUtils
-VARIABLES t
+VARIABLES t, failed
 
 ASSUME TLCSet(1, ndJsonDeserialize(IOEnv.RECS))
 Rec == TLCGet(1)
@@ -46,7 +46,8 @@ Failed(r) == LET c == Clauses(r) IN {n \in DOMAIN c : ~c[n]}
 RECURSIVE SetToSeq(_)
 SetToSeq(S) == IF S = {} THEN <<>> ELSE LET x == CHOOSE y \in S : TRUE IN <<x>> \o SetToSeq(S \ {x})
 
-Init == t \in 1..Len(Rec)
-Next == FALSE /\ t' = t
-Report == PrintT(<<"VERDICT", ToJson([id |-> Rec[t].id, failed |-> SetToSeq(Failed(Rec[t]))])>>)
+\* one initial state per record; the judgement is a step so that TLC's workers share the batch
+Init == t \in 1..Len(Rec) /\ failed = <<"pending">>
+Next == failed = <<"pending">> /\ failed' = SetToSeq(Failed(Rec[t])) /\ t' = t
+Report == failed = <<"pending">> \/ PrintT(<<"VERDICT", ToJson([id |-> Rec[t].id, failed |-> failed])>>)
 =============================================================================
